@@ -11,7 +11,7 @@ from vf.props import c01
 ID = "C02"
 LEVEL = "exploration"
 RULE = ("case = (generated acyclic RTL design (same grammar as C01, reads and writes through nested @s.func helpers included) with explicit U(a)<U(b) constraints, two input vectors, pass seeds) "
-        "or (design + a ring of 2-4 U<U constraints over mutually independent blocks); per pass the executed block "
+        "or (design + a ring of 2-4 U<U constraints over mutually independent blocks, optionally next to 1-3 legal false combinational loops); per pass the executed block "
         "order is recorded with sys.setprofile during sim_eval_combinational; obligations: each user block and "
         "each net block is called exactly once; for user blocks A,B where a bit written by A reaches (through "
         "connections, computed from the IR) a bit read by B, pos(A)<pos(B); at each block's call in a second "
